@@ -21,9 +21,8 @@ def showArrays (a : Arrays) : String :=
 def showGraph (g : Graph) : String := showArrays (Arrays.ofGraph g)
 
 /-- the lazy `CompositeAdjactor<Graph,Graph>` as an adjactor: images through the iterator model.
-The driver runs the iterator with the repaired `image_begin` (FINDINGS_C19.md F-C19-5); by
-`C19.compositeIterator_fixed_spec` it coincides with the iterator as it is in the tree on every input on which
-the latter is defined (first adjactor-1 image has a non-empty adjactor-2 list). -/
+`image_begin` skips leading empty adjactor-2 lists (1c006df21, FINDINGS_C19.md F-C19-5);
+`C19.compositeIterator_fixed_spec`: the images are the lazy `flatMap`, for every input. -/
 def lazyComposite (a b : Graph) : Adjactor :=
   { nDom := a.nDom, nImg := b.nImg,
     fold := fun i f s => ((CompIt.imagesOfFixed a b i).getD []).foldl f s }
@@ -149,7 +148,7 @@ def handle : P String := do
     | some p =>
       match Kern.permuteIndices a p.perm with
       | some r => pure (showArrays r)
-      | none => pure (if a.idx.isEmpty || a.idx.size != p.perm.length then "ABORT" else "EXC")
+      | none => pure (if a.idx.isEmpty || a.nImg != p.perm.length then "ABORT" else "EXC")
   | "randperm" =>
     -- `Permutation(n, Random&)`: swap array drawn by the library RNG (repeated on the case line), then
     -- `calc_perm_from_swap`
